@@ -15,7 +15,7 @@ CONSTANTS Type,        \* "oc" / "at" / "dcr"
           NStr,        \* entries of StrPool used for DESC and extension values
           NOid,        \* entries of OidPool used
           MaxList,     \* names / oid lists have 0..MaxList entries (0 = clause absent)
-          MaxExt,      \* 0..MaxExt extensions, each with 1..MaxExtVals values
+          MaxExt,      \* 0..MaxExt extensions, each with 0..MaxExtVals values (0: the empty list "( )")
           MaxExtVals,
           Spacing,     \* 0: exactly the canonical spacing; n: 0..n spaces at WSP, 1..n+1 at SP
           MaxWeight,   \* at most this many non-zero choices: the all-zero derivation is the minimal definition, weight k = k deviations from it
@@ -80,6 +80,8 @@ Items(ch, i, left, kind, vs, s, first) ==
          IF HasNeed(it) THEN it ELSE Items(ch, it.i, left - 1, kind, Append(vs, it.v), s \o sep.s \o it.s, FALSE)
 \* n >= 1 items; a single item may be bare or parenthesised; parenthesised lists have WSP inside the parentheses
 List(ch, i, n, kind) ==
+    \* n = 0: the empty list "( WSP )" (qdstringlist = [ qdstring *( SP qdstring ) ] may be empty)
+    IF n = 0 THEN (LET a == WspAt(ch, i, 1) IN IF HasNeed(a) THEN a ELSE [vs |-> <<>>, s |-> <<LPAR>> \o a.s \o <<RPAR>>, i |-> a.i]) ELSE
     IF n = 1 /\ i > Len(ch) THEN Need(2) ELSE
     LET paren == n > 1 \/ ch[i] = 1
         j == IF n = 1 THEN i + 1 ELSE i IN
@@ -122,12 +124,12 @@ RECURSIVE ExtClauses(_, _, _, _, _)
 ExtClauses(ch, i, left, vs, s) ==
     IF left = 0 THEN [vs |-> vs, s |-> s, i |-> i] ELSE
     LET a == SpAt(ch, i) IN IF HasNeed(a) THEN a ELSE
-    IF a.i + 1 > Len(ch) THEN Need(IF a.i > Len(ch) THEN 2 ELSE MaxExtVals) ELSE
+    IF a.i + 1 > Len(ch) THEN Need(IF a.i > Len(ch) THEN 2 ELSE MaxExtVals + 1) ELSE
     \* distinct names: the k-th extension uses the k-th name of the pool; "X-" or "x-" by choice
     LET name == XNamePool[Len(vs) + 1]
         pre == IF ch[a.i] = 1 THEN <<120, HYPHEN>> ELSE <<88, HYPHEN>>
         b == SpAt(ch, a.i + 2) IN IF HasNeed(b) THEN b ELSE
-    LET l == List(ch, b.i, ch[a.i + 1] + 1, "dstring") IN IF HasNeed(l) THEN l ELSE
+    LET l == List(ch, b.i, ch[a.i + 1], "dstring") IN IF HasNeed(l) THEN l ELSE
     ExtClauses(ch, l.i, left - 1, Append(vs, [name |-> name, vals |-> l.vs]), s \o a.s \o pre \o name \o b.s \o l.s)
 Exts(ch, i) == IF i > Len(ch) THEN Need(MaxExt + 1) ELSE ExtClauses(ch, i + 1, ch[i], <<>>, <<>>)
 
